@@ -13,7 +13,7 @@ if ! git apply --check $P; then echo "RESULT patch-does-not-apply"; exit 3; fi
 export CARGO_NET_OFFLINE=true PYO3_PYTHON=/usr/bin/python3 CARGO_PROFILE_RELEASE_LTO=off CARGO_PROFILE_RELEASE_CODEGEN_UNITS=16
 build_ext() { (cd $W && cargo build --release --offline --features verif 2>&1 | tail -1 && cp target/release/libgufo_snmp.so src/gufo/snmp/_fast.so); }
 demo() {
-  if [ -f $O/demo.py ]; then (cd $O && PYTHONPATH=$W/src timeout 600 /usr/bin/python3 demo.py);
+  if [ -f $O/demo.py ]; then (cd $O && VERIF_STAGE=$W/src PYTHONPATH=$W/src timeout 600 /usr/bin/python3 demo.py);
   else RUN=$(grep -v '^\s*$' $O/RUN.txt | grep -v '^#' | head -1); timeout 900 bash -c "$RUN"; fi
 }
 git apply $P
